@@ -12,8 +12,9 @@ strings in hex, `-` = empty):
   sq <n>                     Squeeze(y), len(y) = n                  -> y
   sqk <n>                    SqueezeKey(y)                           -> y | panic
   ratchet                    Ratchet()                               -> ok | panic
-  want <hex>                 (vector replay) the model prints its previous output again; the
-                             harness prints <hex>, the value in the published transcript
+Vector replay: an operation may carry a last word `=<value>`, the value published in
+`cyclist/testdata`; the model ignores it, the harness answers `<own output> !vector` when the real
+code's output differs from it (so a deviation of either side from the vector shows in the diff).
 The permutation is the Lean Keccak-p[1600, 12].
 -/
 namespace Driver.C13
@@ -21,7 +22,6 @@ open Cyclist
 
 structure St where
   c : Cy
-  last : String
 
 def render (o : Out) : String :=
   match o with
@@ -43,17 +43,15 @@ def parse : List String → Option Op
   | _ => none
 
 def stepLine (st : St) (ws : List String) : St × String :=
-  match ws with
-  | ["new"] => ({ c := Cyclist.empty, last := "ok" }, "ok")
-  | ["want", _] => (st, st.last)
-  | _ =>
+  match stripExpect ws with
+  | ["new"] => ({ c := Cyclist.empty }, "ok")
+  | ws =>
     match parse ws with
     | some op =>
       let r := step Keccak.f12 st.c op
-      let o := render r.2
-      ({ c := r.1, last := o }, o)
+      ({ c := r.1 }, render r.2)
     | none => (st, "bad-op")
 
-def main (_ : List String) : IO Unit := loopLines stepLine { c := Cyclist.empty, last := "" }
+def main (_ : List String) : IO Unit := loopLines stepLine { c := Cyclist.empty }
 
 end Driver.C13
